@@ -3,8 +3,8 @@ C20 — drawings are well-formed SVG showing every node and edge once.
 
 Property theorems about the model of sknetwork/visualization (Model/Svg.lean, Model/Xml.lean) and the
 specification (Spec/Xml.lean: recogniser `wf` of well-formed XML; Spec/Svg.lean: expected content).
-Printed numbers are arbitrary attribute-safe tokens (`SafeNums ν`), colours given as options are attribute-safe
-strings; names are arbitrary lists of code points.
+Printed numbers are arbitrary attribute-safe tokens (`SafeNums ν`); names and colour options are arbitrary lists of
+code points (the code escapes both since 9c96c7f6 / 997510e6).
 -/
 import SkNet.Lemmas.SvgFinal
 import SkNet.Spec.Svg
@@ -59,16 +59,10 @@ theorem old_graph_sanitiser_unsafe :
 
 /-! ## ★ the returned string is a well-formed XML document, whatever the names -/
 
-/-- the colour options of `visualize_graph` can stand in an attribute -/
-structure SafeGraphArgs (a : GraphArgs) : Prop where
-  nodeColor : SafeStr a.nodeColor
-  edgeColor : ∀ c, a.edgeColor = some c → SafeStr c
-  labelColors : SafeLabelColors a.labelColors
-
 /-- `visualize_graph`: for every graph, layout, names (arbitrary code points), labels, scores, membership matrix,
-    edge labels, node order, sizes and flags — whenever the function returns, the returned string is a well-formed
-    XML document. -/
-theorem visualizeGraph_wf (ν : Nums) (a : GraphArgs) (d : Drawing) (hν : SafeNums ν) (ha : SafeGraphArgs a)
+    edge labels, node order, colours (arbitrary code points: they are escaped where they enter an attribute), sizes and
+    flags — whenever the function returns, the returned string is a well-formed XML document. -/
+theorem visualizeGraph_wf (ν : Nums) (a : GraphArgs) (d : Drawing) (hν : SafeNums ν)
     (h : visualizeGraph ν a = .ok d) : wf (render d.svg) = true := by
   unfold visualizeGraph at h
   simp only [bind, Except.bind, pure, Except.pure] at h
@@ -90,10 +84,9 @@ theorem visualizeGraph_wf (ν : Nums) (a : GraphArgs) (d : Drawing) (hν : SafeN
   · simp at h
   rename_i text htext
   rw [writeFile_svg h]
-  have hcs := getNodeColors_safe hν ha.nodeColor ha.labelColors hcolors
-  obtain ⟨he1, he2⟩ := graphEdgeParts_inner hν a pos ha.edgeColor ha.labelColors hedges
-  exact svgDoc_wf hν _ _ (Inner.append (Inner.flatMap_mem _ _ (fun c hc => svgMarker_inner (he1 c hc)))
-    (Inner.append he2 (Inner.append (graphNodes_inner hν _ _ _ hcs hnodes) (namesText_inner hν _ _ _ _ htext))))
+  have he2 := graphEdgeParts_inner hν a pos hedges
+  exact svgDoc_wf hν _ _ (Inner.append (Inner.flatMap _ _ (fun c => svgMarker_inner c))
+    (Inner.append he2 (Inner.append (graphNodes_inner hν _ _ _ _ hnodes) (namesText_inner hν _ _ _ _ htext))))
 
 /-- every number printed as `#` (what the correspondence runs use) -/
 def νhash : Nums := { tok := fun _ _ _ => [35] }
@@ -103,28 +96,21 @@ theorem νhash_safe : SafeNums νhash := fun _ _ _ => (by decide : SafeStr [35])
 /-- the stable insertion sort of the model is a permutation of the positions -/
 theorem νhash_sort : SortOk νhash := fun d => argsort_perm d
 
-/-- a directed triangle with a coincident pair of nodes, hostile names, labels and an edge label on a non-edge -/
+/-- a directed triangle with a coincident pair of nodes, hostile names and colours, labels and an edge label on a
+    non-edge -/
 def exampleGraph : GraphArgs :=
   { n := 3, entries := [(0, 1, 1), (1, 2, 2), (2, 0, 1)], pos := [(0, 0), (1, 0), (1, 0)],
     names := some [py!"a<", py!"b&\"", [99, 1, 233, 0xD800]], labels := some (.arr [0, -1, 4] true),
-    edgeLabels := [(0, 1, 1), (2, 1, 3)] }
+    edgeLabels := [(0, 1, 1), (2, 1, 3)], nodeColor := py!"a\"b<", edgeColor := some py!"<&" }
 
-example : SafeGraphArgs exampleGraph := ⟨by decide, by intro c h; simp [exampleGraph] at h, trivial⟩
 /-- the example is drawn (the function returns, with 43 pieces) -/
 example : (match visualizeGraph νhash exampleGraph with | .ok d => d.svg.length | .error _ => 0) = 43 := by
   decide +kernel
 
 
-/-- the colour options of `visualize_bigraph` can stand in an attribute -/
-structure SafeBigraphArgs (a : BigraphArgs) : Prop where
-  colorRow : SafeStr a.colorRow
-  colorCol : SafeStr a.colorCol
-  edgeColor : ∀ c, a.edgeColor = some c → SafeStr c
-  labelColors : SafeLabelColors a.labelColors
-
 /-- `visualize_bigraph`: whenever the function returns, the returned string is a well-formed XML document —
     for every biadjacency matrix, names of rows and columns (arbitrary code points) and options. -/
-theorem visualizeBigraph_wf (ν : Nums) (a : BigraphArgs) (d : Drawing) (hν : SafeNums ν) (ha : SafeBigraphArgs a)
+theorem visualizeBigraph_wf (ν : Nums) (a : BigraphArgs) (d : Drawing) (hν : SafeNums ν)
     (h : visualizeBigraph ν a = .ok d) : wf (render d.svg) = true := by
   unfold visualizeBigraph at h
   simp only [bind, Except.bind, pure, Except.pure] at h
@@ -154,31 +140,22 @@ theorem visualizeBigraph_wf (ν : Nums) (a : BigraphArgs) (d : Drawing) (hν : S
   · simp at h
   rename_i textCol htc
   rw [writeFile_svg h]
-  have h1 := getNodeColors_safe hν ha.colorRow ha.labelColors hrow
-  have h2 := getNodeColors_safe hν ha.colorCol ha.labelColors hcol
-  exact svgDoc_wf hν _ _ (Inner.append (bigraphEdges_inner hν a ha.edgeColor ha.labelColors hedges)
-    (Inner.append (nodeLoop_inner hν _ _ _ h1 hnr) (Inner.append (nodeLoop_inner hν _ _ _ h2 hnc)
+  exact svgDoc_wf hν _ _ (Inner.append (bigraphEdges_inner hν a hedges)
+    (Inner.append (nodeLoop_inner hν _ _ _ _ hnr) (Inner.append (nodeLoop_inner hν _ _ _ _ hnc)
       (Inner.append (namesText_inner hν _ _ _ _ htr) (namesText_inner hν _ _ _ _ htc)))))
 
 def exampleBigraph : BigraphArgs :=
   { nRow := 1, nCol := 2, entries := [(0, 0, 0), (0, 1, 1)], namesRow := some [py!"<r>"],
     namesCol := some [py!"'", [11, 0xFFFF]], probsCol := some ⟨2, [[(0, 1/2), (1, 1/2)], []]⟩ }
 
-example : SafeBigraphArgs exampleBigraph :=
-  ⟨by decide, by decide, by intro c h; simp [exampleBigraph] at h; subst h; decide, trivial⟩
 /-- the example is drawn (the function returns, with 26 pieces) -/
 example : (match visualizeBigraph νhash exampleBigraph with | .ok d => d.svg.length | .error _ => 0) = 26 := by
   decide +kernel
 
 
-/-- the colour options of `visualize_dendrogram` can stand in an attribute -/
-structure SafeDendroArgs (a : DendroArgs) : Prop where
-  color : SafeStr a.color
-  colors : AllSafe a.colors
-
 /-- `visualize_dendrogram` (root on top or on the left): whenever the function returns, the returned string is a
     well-formed XML document — for every dendrogram, leaf names (arbitrary code points) and options. -/
-theorem visualizeDendrogram_wf (ν : Nums) (a : DendroArgs) (d : Drawing) (hν : SafeNums ν) (ha : SafeDendroArgs a)
+theorem visualizeDendrogram_wf (ν : Nums) (a : DendroArgs) (d : Drawing) (hν : SafeNums ν)
     (h : visualizeDendrogram ν a = .ok d) : wf (render d.svg) = true := by
   unfold visualizeDendrogram at h
   simp only [bind, Except.bind] at h
@@ -188,12 +165,11 @@ theorem visualizeDendrogram_wf (ν : Nums) (a : DendroArgs) (d : Drawing) (hν :
   obtain ⟨cut, index, text, paths, hcut, hindex, hne, htext, hpaths, rfl⟩ := svgDendrogram_ok hsvg
   rw [writeFile_svg h]
   exact svgDoc_wf hν _ _ (Inner.append (dendroNames_inner hν a index htext)
-    (dendroTree_inner hν a ha.color ha.colors cut index hpaths))
+    (dendroTree_inner hν a cut index hpaths))
 
 def exampleDendro : DendroArgs :=
   { merges := [(0, 1), (2, 3)], cutLabels := some [0, 0, 1], names := some [py!"a<b", py!"b", py!"c&"] }
 
-example : SafeDendroArgs exampleDendro := ⟨by decide, standardColors_safe⟩
 /-- the example is drawn (the function returns, with 20 pieces) -/
 example : (match visualizeDendrogram νhash exampleDendro with | .ok d => d.svg.length | .error _ => 0) = 20 := by
   decide +kernel
@@ -213,7 +189,7 @@ example : (match getIndex [(0, 1), (3, 2)] true with | .ok l => l | .error _ => 
     document with root `svg`, exactly three edge paths per merge, no other shape, and one `text` element per leaf
     `0 … n-1` in this order, the `i`-th showing exactly `names[i]` (characters XML cannot represent shown as U+FFFD). -/
 theorem visualizeDendrogram_counts (ν : Nums) (a : DendroArgs) (d : Drawing) (hν : SafeNums ν)
-    (ha : SafeDendroArgs a) (h : visualizeDendrogram ν a = .ok d) :
+    (h : visualizeDendrogram ν a = .ok d) :
     docMeets (render d.svg) (expectedDendrogram a) = true := by
   unfold visualizeDendrogram at h
   simp only [bind, Except.bind] at h
@@ -224,17 +200,17 @@ theorem visualizeDendrogram_counts (ν : Nums) (a : DendroArgs) (d : Drawing) (h
   rw [writeFile_svg h]
   have hlen := getIndex_length a.merges a.reorder index hindex
   have hi : Inner (text ++ paths) := Inner.append (dendroNames_inner hν a index htext)
-    (dendroTree_inner hν a ha.color ha.colors cut index hpaths)
+    (dendroTree_inner hν a cut index hpaths)
   have hp := dendroTree_shape hpaths
   cases hn : a.names with
   | none =>
     have ht : text = [] := dendroNames_none hn htext
     subst ht
-    have := docMeets_svgDoc hν true false [] (fun _ hc => by simp at hc) hi (by simpa using hp)
+    have := docMeets_svgDoc hν true false [] hi (by simpa using hp)
     simpa [expectedDendrogram, hn, hlen] using this
   | some names =>
     have hs := Shape.append (dendroNames_shape hn htext) hp
-    have := docMeets_svgDoc hν true false [] (fun _ hc => by simp at hc) hi hs
+    have := docMeets_svgDoc hν true false [] hi hs
     simpa [expectedDendrogram, hn, hlen, Summary.add] using this
 
 /-- the inputs of `visualize_graph` the count statement is about: a membership matrix whose column indices are within
@@ -263,9 +239,9 @@ structure GraphDomain (a : GraphArgs) : Prop where
     * one `text` element per node `0 … n-1` in this order when names are given, the `i`-th showing exactly `names[i]`
       with every character XML 1.0 cannot represent shown as U+FFFD. -/
 theorem visualizeGraph_counts (ν : Nums) (a : GraphArgs) (d : Drawing) (hν : SafeNums ν) (hsort : SortOk ν)
-    (ha : SafeGraphArgs a) (hd : GraphDomain a) (h : visualizeGraph ν a = .ok d) :
+    (hd : GraphDomain a) (h : visualizeGraph ν a = .ok d) :
     docMeets (render d.svg) (expectedGraph a) = true :=
-  visualizeGraph_docMeets ν a d hν hsort ha.nodeColor ha.edgeColor ha.labelColors hd.probs hd.canvas hd.scale
+  visualizeGraph_docMeets ν a d hν hsort hd.probs hd.canvas hd.scale
     hd.indices h
 
 example : GraphDomain exampleGraph :=
@@ -357,9 +333,9 @@ structure BigraphDomain (a : BigraphArgs) : Prop where
     edge, and one `text` element per row name then per column name, each showing exactly its name (characters XML 1.0
     cannot represent shown as U+FFFD). Which nodes a path joins is checked by the geometry spec lines, not proved. -/
 theorem visualizeBigraph_counts (ν : Nums) (a : BigraphArgs) (d : Drawing) (hν : SafeNums ν) (hsort : SortOk ν)
-    (ha : SafeBigraphArgs a) (hd : BigraphDomain a) (h : visualizeBigraph ν a = .ok d) :
+    (hd : BigraphDomain a) (h : visualizeBigraph ν a = .ok d) :
     docMeets (render d.svg) (expectedBigraph a) = true :=
-  visualizeBigraph_docMeets ν a d hν hsort ha.colorRow ha.colorCol ha.edgeColor ha.labelColors hd.probsRow hd.probsCol h
+  visualizeBigraph_docMeets ν a d hν hsort hd.probsRow hd.probsCol h
 
 example : BigraphDomain exampleBigraph :=
   ⟨fun p hp => by simp [exampleBigraph] at hp,
@@ -391,9 +367,9 @@ example : utf8Encode [233, 0x4E2D, 0x1F600, 65] = some [0xC3, 0xA9, 0xE4, 0xB8, 
 
 /-- `visualize_graph(…, filename=f)`: the file `f + '.svg'` holds the UTF-8 bytes of the returned string. -/
 theorem visualizeGraph_file_same (ν : Nums) (a : GraphArgs) (d : Drawing) (f : PyStr) (hν : SafeNums ν)
-    (ha : SafeGraphArgs a) (hf : a.filename = some f) (h : visualizeGraph ν a = .ok d) :
+    (hf : a.filename = some f) (h : visualizeGraph ν a = .ok d) :
     ∃ bytes, d.file = some (f ++ py!".svg", bytes) ∧ utf8Decode bytes = some (render d.svg) := by
-  obtain ⟨doc, hlex, hw⟩ := visualizeGraph_struct ν a d hν ha.nodeColor ha.edgeColor ha.labelColors h
+  obtain ⟨doc, hlex, hw⟩ := visualizeGraph_struct ν a d hν h
   rw [hf] at hw
   exact writeFile_file hlex hw
 
@@ -404,18 +380,18 @@ example : (match visualizeGraph νhash { exampleGraph with filename := some py!"
 
 /-- `visualize_bigraph(…, filename=f)`: the file holds the UTF-8 bytes of the returned string. -/
 theorem visualizeBigraph_file_same (ν : Nums) (a : BigraphArgs) (d : Drawing) (f : PyStr) (hν : SafeNums ν)
-    (ha : SafeBigraphArgs a) (hf : a.filename = some f) (h : visualizeBigraph ν a = .ok d) :
+    (hf : a.filename = some f) (h : visualizeBigraph ν a = .ok d) :
     ∃ bytes, d.file = some (f ++ py!".svg", bytes) ∧ utf8Decode bytes = some (render d.svg) := by
   obtain ⟨doc, hlex, hw⟩ :=
-    visualizeBigraph_struct ν a d hν ha.colorRow ha.colorCol ha.edgeColor ha.labelColors h
+    visualizeBigraph_struct ν a d hν h
   rw [hf] at hw
   exact writeFile_file hlex hw
 
 /-- `visualize_dendrogram(…, filename=f)`: the file holds the UTF-8 bytes of the returned string. -/
 theorem visualizeDendrogram_file_same (ν : Nums) (a : DendroArgs) (d : Drawing) (f : PyStr) (hν : SafeNums ν)
-    (ha : SafeDendroArgs a) (hf : a.filename = some f) (h : visualizeDendrogram ν a = .ok d) :
+    (hf : a.filename = some f) (h : visualizeDendrogram ν a = .ok d) :
     ∃ bytes, d.file = some (f ++ py!".svg", bytes) ∧ utf8Decode bytes = some (render d.svg) := by
-  obtain ⟨doc, hlex, hw⟩ := visualizeDendrogram_struct ν a d hν ha.color ha.colors h
+  obtain ⟨doc, hlex, hw⟩ := visualizeDendrogram_struct ν a d hν h
   rw [hf] at hw
   exact writeFile_file hlex hw
 
